@@ -59,7 +59,7 @@ def _run_group_batch(group, header, delta, stiff_idx, workdir, schemes=None):
     ode = gx.load(build_model(group))
     stiff = [f"s{j}" for j in stiff_idx] + ["not_a_state"]
     schemes = schemes or modelcase.SCHEMES
-    mod = modelcase.NumpyMod(ode, schemes, delta=float(delta), stiff_states=stiff)
+    mod = modelcase.NumpyMod(ode, modelcase.scheme_order(schemes, str(header) + str(delta) + str(stiff)), delta=float(delta), stiff_states=stiff)
     out = {j: {} for j in range(n)}
     keys = list(group[0]["grid"].keys())
     parsed = [tuple(map(int, _KEY.match(k).groups())) for k in keys]
@@ -94,7 +94,7 @@ def _run_group(group, header, delta, stiff_idx, backend, workdir, schemes=None):
     ode = gx.load(build_model(group))
     stiff = [f"s{j}" for j in stiff_idx] + ["not_a_state"]
     schemes = schemes or modelcase.SCHEMES
-    mod = modelcase.make_mod(backend, ode, schemes, workdir=workdir, delta=float(delta), stiff_states=stiff)
+    mod = modelcase.make_mod(backend, ode, modelcase.scheme_order(schemes, str(header) + str(delta) + str(stiff)), workdir=workdir, delta=float(delta), stiff_states=stiff)
     out = {j: {} for j in range(n)}
     try:
         keys = list(group[0]["grid"].keys())
